@@ -95,12 +95,12 @@ func scUnstakePendingClaim(tw *hx.TraceWriter, rep *hx.Report, seed int64) {
 	c := baseCfg(seed)
 	c.B, c.UnstakingTime = 2, 1
 	w := startChain(tw, rep, c, "a-unstake-pending-claim")
-	w.to(6) // session 5..6 has ended
+	w.to(6)              // session 5..6 has ended
 	w.block(blockOpts{}, // height 7
 		w.claimTx(kN1, kA1, "0001", 5, 5, e5, kN1), w.claimTx(kN2, kA1, "0001", 5, 6, e6, kN2),
 		w.claimTx(kN2, kA2, "0002", 5, 5, e5, kN2), w.claimTx(kN3, kA2, "0002", 5, 5, e5, kN3),
 		w.nodeUnstakeTx("a2", "a2", "a2"), w.nodeUnstakeTx("a3", "a3", "a3"))
-	w.block(blockOpts{})            // height 8: session end, a2 and a3 begin unstaking (due at t+1)
+	w.block(blockOpts{})      // height 8: session end, a2 and a3 begin unstaking (due at t+1)
 	r := w.block(blockOpts{}, // height 9 = first proof height; both mature at this EndBlock
 		w.proofTx(kN3, kA2, "0002", 5, e5, req()), w.proofTx(kN1, kA1, "0001", 5, e5, req()))
 	w.note("a:proof-while-unstaking", r, 0)
@@ -120,8 +120,8 @@ func scAppTransferMidSession(tw *hx.TraceWriter, rep *hx.Report, seed int64) {
 	c := baseCfg(seed)
 	c.AppUnstaking = 2
 	w := startChain(tw, rep, c, "b-app-transfer-mid-session")
-	w.block(blockOpts{})                                 // 5: session 5..8 begins
-	w.block(blockOpts{}, w.appTransferTx("a4", "a11"))  // 6: a4 -> a11
+	w.block(blockOpts{})                               // 5: session 5..8 begins
+	w.block(blockOpts{}, w.appTransferTx("a4", "a11")) // 6: a4 -> a11
 	w.to(8)
 	r := w.block(blockOpts{}, // 9
 		w.claimTx(kN1, kA1, "0001", 5, 5, e5, kN1), // old key: the application of session 5
@@ -173,7 +173,7 @@ func scStakeMinimumSlash(tw *hx.TraceWriter, rep *hx.Report, seed int64) {
 	w.block(blockOpts{}, w.nodeStakeTx("a9", "a10", 4000000, []string{"0001"}, urls[1], nil, "a9"), // below the new minimum
 		w.nodeStakeTx("a2", "a2", 3500000, []string{"0001", "0002"}, urls[0], nil, "a2")) // an edit is not checked against it
 	w.block(blockOpts{Evidence: []evidenceSpec{{Node: "a3", Height: w.s.Height, Time: w.t, Power: 1}}}) // a3: 4.0 -> 3.5 < minimum: forced unstake
-	w.block(blockOpts{}, w.nodeUnjailTx("a3", "a3", "a3"))                                             // too low to unjail
+	w.block(blockOpts{}, w.nodeUnjailTx("a3", "a3", "a3"))                                              // too low to unjail
 	miss := func() blockOpts { return blockOpts{Absent: []string{"a2"}} }
 	w.until(12, miss, jailed("a2"))
 	w.block(blockOpts{Dt: 2}, w.nodeUnjailTx("a2", "a2", "a2"), w.nodeStakeTx("a2", "a2", 5000000, []string{"0001", "0002"}, urls[0], nil, "a2"))
@@ -207,7 +207,7 @@ func scFeeMultiplier(tw *hx.TraceWriter, rep *hx.Report, seed int64) {
 	c.B, c.NodeCount = 2, 3
 	w := startChain(tw, rep, c, "f-fee-multiplier-mid-block")
 	w.block(blockOpts{}, w.nodeStakeTx("a9", "a1", 4000000, []string{"0001"}, urls[1], map[string]int64{"a6": 20}, "a9")) // 5
-	w.to(8) // session 7..8 (a1, a2, a9 serve 0001) has ended
+	w.to(8)                                                                                                               // session 7..8 (a1, a2, a9 serve 0001) has ended
 	send := func(fee int64) absTx { a := w.sendTx("a6", "a7", 100); a["fee"] = fee; return a }
 	withFee := func(a absTx, fee int64) absTx { a["fee"] = fee; return a }
 	r := w.block(blockOpts{}, // 9
@@ -243,8 +243,8 @@ func scFeatureUpgrade(tw *hx.TraceWriter, rep *hx.Report, seed int64) {
 	r := w.block(blockOpts{}, w.appTransferTx("a4", "a11"), w.proofTx(kN1, kA1, "0001", 5, e5, req()), // 9: active; flat reward
 		w.claimTx(kN1, kA1, "0001", 7, 5, e5, kN1), w.claimTx(kN2, kA1, "0001", 7, 6, e6, kN2))
 	w.note("g:transfer-at-activation", r, 0)
-	w.block(blockOpts{}, w.paramInt(kOwner, "pos/ServicerStakeFloorMultiplier", 1000000)) // 10: the key has no owner yet
-	w.block(blockOpts{}, w.claimTx(kN1, kA3, "0001", 9, 5, e5, kN1))                       // 11
+	w.block(blockOpts{}, w.paramInt(kOwner, "pos/ServicerStakeFloorMultiplier", 1000000))                      // 10: the key has no owner yet
+	w.block(blockOpts{}, w.claimTx(kN1, kA3, "0001", 9, 5, e5, kN1))                                           // 11
 	w.block(blockOpts{}, w.proofTx(kN2, kA1, "0001", 5, e5, req()), w.proofTx(kN1, kA1, "0001", 7, e5, req())) // 12: RSCAL: bins of 15e9 -> nothing to pay
 	w.restart()
 	w.block(blockOpts{}, w.paramInt(kOwner, "pos/ServicerStakeFloorMultiplier", 1000000), w.paramInt(kOwner, "pos/ServicerStakeWeightCeiling", 4000000),
@@ -263,9 +263,9 @@ func scMatureAtBoundary(tw *hx.TraceWriter, rep *hx.Report, seed int64) {
 	w := startChain(tw, rep, c, "h-mature-at-boundary-with-proof")
 	w.to(6)
 	w.block(blockOpts{}, w.claimTx(kN2, kA1, "0001", 5, 5, e5, kN2), w.claimTx(kN1, kA1, "0001", 5, 5, e5, kN1), w.nodeUnstakeTx("a2", "a2", "a2")) // 7
-	w.block(blockOpts{}, w.appUnstakeTx("a5", "a5"))     // 8: a2 unstaking, due at t+2; a5 due at t+2
-	w.block(blockOpts{}, w.nodeUnstakeTx("a1", "a1", "a1")) // 9: a1 waits for the session end
-	r := w.block(blockOpts{}, w.proofTx(kN2, kA1, "0001", 5, e5, req()), w.proofTx(kN1, kA1, "0001", 5, e5, req())) // 10: boundary + maturity + proofs
+	w.block(blockOpts{}, w.appUnstakeTx("a5", "a5"))                                                                                                // 8: a2 unstaking, due at t+2; a5 due at t+2
+	w.block(blockOpts{}, w.nodeUnstakeTx("a1", "a1", "a1"))                                                                                         // 9: a1 waits for the session end
+	r := w.block(blockOpts{}, w.proofTx(kN2, kA1, "0001", 5, e5, req()), w.proofTx(kN1, kA1, "0001", 5, e5, req()))                                 // 10: boundary + maturity + proofs
 	w.note("h:proof-in-maturity-block", r, 0)
 	w.block(blockOpts{Dt: 5}, w.sendTx("a2", "a6", 1000))
 	w.blocks(3)
@@ -294,7 +294,7 @@ func scReplayBurnForceUnstake(tw *hx.TraceWriter, rep *hx.Report, seed int64) {
 	r := w.block(blockOpts{}, w.claimTx(kN2, kA1, "0001", 5, total, e6dup, kN2), w.proofTx(kN2, kA1, "0001", 5, e6dup, req()), // 9
 		w.claimTx(kN4, kA2, "0002", 7, 5, e5, kN4), w.claimTx(kN3, kA2, "0002", 7, 5, e5, kN3))
 	w.note("i:replay-proof", r, 1)
-	w.block(blockOpts{}, w.nodeUnjailTx("a2", "a2", "a2")) // 10: too low to unjail; session end releases it
+	w.block(blockOpts{}, w.nodeUnjailTx("a2", "a2", "a2"))                                                         // 10: too low to unjail; session end releases it
 	r = w.block(blockOpts{}, w.proofTx(kN4, kA2, "0002", 7, e5, req()), w.proofTx(kN3, kA2, "0002", 7, e5, req())) // 11: reward of a9 goes to its output a1 and delegator a6
 	w.note("i:proof-output-and-delegator", r, 0)
 	w.blocks(4)
@@ -341,9 +341,9 @@ func scLegacyNodeTakeover(tw *hx.TraceWriter, rep *hx.Report, seed int64) {
 	w.block(blockOpts{Proposer: "a2"}, w.nodeStakeTx("a1", "a10", v.Tokens, v.Chains, v.URL, nil, "a1")) // the operator sets the output address
 	v = w.s.Project().Val["a1"]
 	r = w.block(blockOpts{Proposer: "a2"},
-		w.nodeStakeTx("a1", "a7", v.Tokens, v.Chains, v.URL, nil, "a7"),  // stranger again
+		w.nodeStakeTx("a1", "a7", v.Tokens, v.Chains, v.URL, nil, "a7"),     // stranger again
 		w.nodeStakeTx("a1", "a10", v.Tokens, v.Chains, urls[2], nil, "a10"), // the output address edits
-		w.nodeStakeTx("a1", "a7", v.Tokens, v.Chains, v.URL, nil, "a10"))  // the output address hands over to a7
+		w.nodeStakeTx("a1", "a7", v.Tokens, v.Chains, v.URL, nil, "a10"))    // the output address hands over to a7
 	w.note("k:stranger-after-output-set", r, 0)
 	w.block(blockOpts{Proposer: "a2"}, w.nodeUnstakeTx("a1", "a10", "a10"), w.nodeUnstakeTx("a1", "a7", "a7"))
 	w.blocks(6)
@@ -364,6 +364,23 @@ func scTransferAfterRelayParamChange(tw *hx.TraceWriter, rep *hx.Report, seed in
 	w.blocks(2)
 }
 
+// (m) a node whose OUTPUT ADDRESS is also one of its reward delegators (and whose operator is another one):
+// the same account is entitled to two shares of every split - relay reward (proof) and block reward (it
+// proposes) - and must receive both
+func scOutputIsDelegator(tw *hx.TraceWriter, rep *hx.Report, seed int64) {
+	c := baseCfg(seed)
+	c.B, c.NodeCount = 2, 3
+	w := startChain(tw, rep, c, "m-output-is-delegator")
+	w.block(blockOpts{}, w.nodeStakeTx("a9", "a1", 4000000, []string{"0001"}, urls[1], map[string]int64{"a1": 30, "a9": 15, "a6": 20}, "a9")) // 5
+	w.to(8)                                                                                                                                   // session 7..8 (a1, a2, a9 serve 0001) has ended
+	send := func() absTx { return w.sendTx("a6", "a7", 100) }
+	w.block(blockOpts{Proposer: "a9"}, send(), send(), w.claimTx(kN4, kA1, "0001", 7, 5, e5, kN4)) // 9: a9 proposes: fees of this block
+	w.block(blockOpts{Proposer: "a9"}, send())                                                     // 10: ... are split at this BeginBlock
+	r := w.block(blockOpts{Proposer: "a2"}, w.proofTx(kN4, kA1, "0001", 7, e5, req()), send())     // 11: relay reward split
+	w.note("m:proof-output-is-delegator", r, 0)
+	w.blocks(2)
+}
+
 type scenario struct {
 	name string
 	run  func(tw *hx.TraceWriter, rep *hx.Report, seed int64)
@@ -378,7 +395,7 @@ func scEmpty(tw *hx.TraceWriter, rep *hx.Report, seed int64) {
 var scenarios = []scenario{
 	{"a", scUnstakePendingClaim}, {"b", scAppTransferMidSession}, {"c", scMaxValidatorsJailed}, {"d", scStakeMinimumSlash},
 	{"e", scDaoPools}, {"f", scFeeMultiplier}, {"g", scFeatureUpgrade}, {"h", scMatureAtBoundary}, {"i", scReplayBurnForceUnstake}, {"j", scWindowReopenedByGovernance},
-	{"k", scLegacyNodeTakeover}, {"l", scTransferAfterRelayParamChange},
+	{"k", scLegacyNodeTakeover}, {"l", scTransferAfterRelayParamChange}, {"m", scOutputIsDelegator},
 	{"zempty", scEmpty},
 }
 
